@@ -221,7 +221,7 @@ func (e *applierEnv) project(rm *protocol.ResolutionModel) ARM {
 			a.Ao = -1
 		}
 	case map[string]interface{}:
-		if f, ok := ao["o"].(float64); ok && len(ao) == 1 {
+		if f, ok := ao["o"].(float64); ok && digestJSON(ao) == digestJSON(anchorOrigin(100+int(f))) {
 			a.Ao = 100 + int(f)
 		} else {
 			a.Ao = -1
